@@ -249,8 +249,15 @@ func runC04(c *report.Ctx) {
 	// the renderer serves runtime and agents from the same Invoke record
 	if ra := fn(c, "L/rapi/rendering", "(*InvokeRenderer).RenderAgentEvent"); ra != nil {
 		ok := false
-		for _, call := range an.CallsTo(ra, "L/rapi/rendering.newAgentInvokeEvent") {
-			ok = loadOf("L/rapi/rendering.InvokeRenderer", "invoke")(call.Common().Args[0])
+		for _, st := range an.Stores(ra, "L/rapi/model.AgentInvokeEvent", "RequestID") {
+			// RequestID <- (renderer.invoke).ID : the record read is the renderer's own
+			if ld, k := an.Strip(st.Val, false).(*ssa.UnOp); k {
+				if fa, k2 := ld.X.(*ssa.FieldAddr); k2 {
+					if fr, k3 := an.AsField(fa); k3 && fr.Struct == "L/interop.Invoke" && fr.Field == "ID" {
+						ok = loadOf("L/rapi/rendering.InvokeRenderer", "invoke")(fa.X)
+					}
+				}
+			}
 		}
 		c.Check("R-WIRE", an.FuncName(ra)+"/same-invoke-record", "the INVOKE event is built from the same Invoke record the runtime's headers are rendered from", ok, fpos(ra), 1, "%v", ok)
 	}
